@@ -27,6 +27,10 @@ MUTANTS = [
     ('random_pair', 'g2[2*i+1] = (g2[2*i+1] + g1[2*i] + g1[2*i+1])%2', 'g2[2*i+1] = (g2[2*i+1] + g1[2*i])%2'),
     ('pauli_tokenize', 'ts[j,i] = 3*gs[j,2*i+1] + (-1)**gs[j,2*i+1] * gs[j,2*i]', 'ts[j,i] = 2*gs[j,2*i+1] + (-1)**gs[j,2*i+1] * gs[j,2*i]'),
     ('state_to_map', '        ps_out[2*i] = ps_in[N+i]', '        ps_out[2*i] = ps_in[i]'),
+    ('z2rank', '            for k in range(r + 1, nr):', '            for k in range(i + 1, nr):'),
+    ('z2rank', '                mat[j, i:] = (mat[j, i:] + mat[r, i:])%2', '                mat[j, i+1:] = (mat[j, i+1:] + mat[r, i+1:])%2'),
+    ('z2inv', '    for i in range(n-1,0,-1):', '    for i in range(n-1,1,-1):'),
+    ('z2inv', '    return a[:,n:]', '    return a[:,:n]'),
 ]
 
 
